@@ -9,8 +9,14 @@
   * frame: op.noise is the same object (same two items) after every iteration.
 [P, real arithmetic] weights of the depolarizing channel: (1-p) + (k-1) * p/(k-1) = 1 and every weight in [0,1] for
   0 <= p <= 1, k = 4^m >= 4  (the Kraus weights / mixture weights graphiq builds in DepolarizingNoise.apply).
-[B-only] the per-model channel actions (dm Kraus sums, mixture branching, MixedStabilizer.reduce), positivity and trace of the
-  computed matrix, backend agreement: bounded stand-in (bounded/C06.py); float positivity is [N] (S3).
+[P / F] WHAT each noise model's apply() does, per noise class x representation branch (contracts/noise_models.py - read its
+  docstring): stabilizer / mixture branches state-level on symbolic tableaux (weights, sign flips by the anticommutation rule,
+  copies, frame, reduce() once afterwards), density-matrix branches as dispatch traces with operator tokens whose numerical
+  content is evaluated natively [F]; MixedStabilizer.reduce (<= 4 branches); constructors / noise_parameters; the last hop
+  compile -> apply (_apply_additional_noise of both compilers: register index as the compiler computes it).
+  DensityMatrix.apply_unitary / apply_channel: formulas proved as operator-algebra expressions (abstract operators).
+[B-only] the float matrix arithmetic on 2^n x 2^n arrays underneath, positivity and trace of the computed matrix, backend
+  agreement on whole circuits: bounded stand-in (bounded/C06.py); float positivity is [N] (S3).
 """
 from __future__ import annotations
 
@@ -18,9 +24,10 @@ import time
 
 import z3
 
-from pyvc.driver import run_tasks
+from pyvc.driver import run_tasks, merge
 from vf.core import Obl
 from contracts import compile_loop as CL
+from contracts import noise_models as NMC
 
 
 def weight_lemma():
@@ -46,11 +53,14 @@ def weight_lemma():
 def deductive(tier="quick", seed=0):
     d = run_tasks(CL.tasks())
     d.obligations.extend(weight_lemma())
+    d = merge(d, NMC.deductive_part())  # per-model contracts, [F] numerics, canaries (contracts/noise_models.py)
     d.trusted_base += [
         "[A] circuit.sequence(unwrapped=True) is an abstract sequence (C12/C20); recorder contracts for compile_one_gate, "
-        "compile_one_noisy_gate, _apply_additional_noise (their own contracts: C01 dispatch; noise models [B-only])",
+        "compile_one_noisy_gate, _apply_additional_noise (_apply_additional_noise of both compilers and the noise models' apply(): "
+        "contracts/noise_models.py; compile_one_noisy_gate: its one-qubit branch there too, the rest - replacement noise on controlled / "
+        "measuring operations, outside the statement - [B-only])",
         "[T-cptp] Kraus maps with sum K^dagger K = c I preserve positivity and scale the trace by c",
-        "[B-only] DepolarizingNoise/PauliError/PhotonLoss.apply on both backends, MixedStabilizer.reduce, assign_noise map lookup",
+        "[B-only] float matrix arithmetic of the density-matrix backend, whole-circuit backend agreement, assign_noise map lookup",
     ]
     d.not_applicable_clauses += ["floating-point positivity of the computed density matrix (S3)",
                                  "backend agreement when noise precedes a measurement (known finding C06-F7: different conditioning semantics)"]
